@@ -159,6 +159,13 @@ type TermTable struct {
 	apps   []*Term // UF applications in creation order
 	// results of look-ups in injective constant tables with an in-range index
 	tableLoads map[*Term]tableLoad
+	loadMemo   map[loadKey]*Term
+}
+
+type loadKey struct {
+	h   uint64
+	n   int
+	idx *Term
 }
 
 type tableLoad struct {
